@@ -22,51 +22,14 @@ def run(ctx):
     for (rule, inst), (ok, where, detail, path) in sorted(H.seen_sites.items()):
         if rule == 'C01.16-trigger' or inst in ('return-0-only-after-commit', 'single-commit'):
             r1.check(ok, inst, where, detail, path)
-    mq = progq.fn('main', 'qmail-queue.c')
-    tp = mq.calls('triggerpull')
-    lk = [c for c in mq.calls('link') if c.args[1].path() == 'G:todofn']
-    if not tp or not lk:
-        raise AnalysisBroken('qmail-queue main: triggerpull()/commit link not found')
-    r1.check(mq.dominates(lk[0], tp[0]) and any(c.strip().k == 'bin' and c.strip().args[1].const == -1 and t is False and c.strip().args[0].strip().id == lk[0].id for c, t in mq.guards(tp[0]) or []),
-             'pull-only-after-successful-commit', tp[0].where, 'triggerpull() must be dominated by the successful link(intd,todo)')
-    r1.expect_min(3)
+    if H.commits == 0:
+        raise AnalysisBroken('qmail-queue main: commit link not found')
+    r1.expect_min(4)
 
     r2 = rep.rule('C16.2-daemon-order', 'R-TYPESTATE', 'todo_do: trigger_set() precedes opendir("todo") on every path that opens the directory; no trigger_set while a scan is open; scan skipped only if not pulled and not yet due')
     td = qsend.analyse_todo_do(db, rep)
     attach(r2, td, only={'todo:trigger_set-before-opendir', 'todo:no-trigger_set-while-a-scan-is-open'})
-    f = prog.fn('todo_do', 'qmail-send.c')
-    od = f.calls('opendir')
-    ts = f.calls('trigger_set')
-    if not od or not ts:
-        raise AnalysisBroken('todo_do: opendir/trigger_set not found')
-    # skip rule: the early return under !tododir needs !pulled and recent < nexttodorun
-    rets = [x for x in f.all_x() if x.k == 'ret']
-    skip_ok = False
-    for x in rets:
-        g = f.guards(x) or []
-        gs = [(c.strip(), t) for c, t in g]
-        has_np = any(branch_zero_test(c, t, lambda v: v.strip().k == 'call' and v.strip().callee == 'trigger_pulled') == 'zero' for c, t in gs)
-        has_nd = any(c.k == 'bin' and c.op == '<' and c.args[0].path() == 'G:recent' and c.args[1].path() == 'G:nexttodorun' and t is True for c, t in gs)
-        if has_np and has_nd:
-            skip_ok = True
-    r2.check(skip_ok, 'scan-skipped-only-if-not-pulled-and-not-due', f.unit + ':todo_do', 'no return guarded by !trigger_pulled(rfds) && recent < nexttodorun')
-    # every return between !tododir and trigger_set needs both (no other way to skip a pulled trigger)
-    for x in rets:
-        g = f.guards(x) or []
-        gs = [(c.strip(), t) for c, t in g]
-        under_closed = any(branch_zero_test(c, t, lambda v: v.path() == 'G:tododir') == 'zero' for c, t in gs)
-        before_set = not f.dominates(ts[0], x)
-        if under_closed and before_set:
-            has_np = any(branch_zero_test(c, t, lambda v: v.strip().k == 'call' and v.strip().callee == 'trigger_pulled') == 'zero' for c, t in gs)
-            r2.check(has_np, 'pulled-trigger-never-skipped@%d' % x.line, x.where, 'todo_do returns with no scan although the trigger may have been pulled')
-    nt = [x for x in f.all_x() if x.k == 'asg' and x.args[0].path() == 'G:nexttodorun']
-    sl = db.unit('qmail-send.c').macro_int('SLEEP_TODO')
-    okn = False
-    for x in nt:
-        r = x.args[1].strip()
-        if r.k == 'bin' and r.op == '+' and 'G:recent' in (r.args[0].path(), r.args[1].path()) and sl in (r.args[0].const, r.args[1].const) and f.dominates(od[0], x):
-            okn = True
-    r2.check(okn, 'nexttodorun=recent+SLEEP_TODO-when-a-scan-starts', f.unit + ':todo_do', 'the periodic rescan time must be set when the directory is opened')
+    attach(r2, qsend.analyse_todo_skip(db, rep), prefixes=['todo:'])
     # trigger.c: closes before it reopens; same path as triggerpull.c
     tset = db.fn('trigger.c', 'trigger_set')
     opens = tset.calls(('open_read', 'open_write'))
@@ -84,6 +47,6 @@ def run(ctx):
     attach(r3, qsend.selprep_sites(db), prefixes=['selprep:', 'main:'])
     ms = qsend.analyse_main(db, rep)
     attach(r3, ms, only={'main:ALRM-handled-before-the-wakeup-time-is-computed', 'main:HUP-handled-before-the-wakeup-time-is-computed'})
-    r3.expect_min(14)
+    r3.expect_min(10)
     rep.assume('select() returns when a descriptor is readable or the timeout expires; fifo semantics of lock/trigger',
                'the classical lost-wake-up argument needs exactly the two orderings decided here; the interleaving itself is not explored')
